@@ -308,3 +308,83 @@ func scanBinOpCallSites(r *run) {
 	}
 	addScanObl(r, "newBinOpCall-call-sites", "newBinOpCall is called only from parseBinAfter, with the accumulated expression as left and the new operand as right operand", len(bad) == 0, strings.Join(bad, "; "))
 }
+
+// scanNondeterminism (C05): closed-world scan of the sources of run-to-run nondeterminism in Go.
+func scanNondeterminism(r *run) {
+	allowedEnum := map[string]bool{
+		"main.exaustiveCheck": true, "main.eqsItems": true, "main.eqsUnion": true, "main.scLookupRecFacCur": true, "main.piRegAll": true,
+	}
+	allowedRange := map[string]bool{"dict.KVs": true, "dict.Keys": true, "dict.Values": true}
+	var bad []string
+	var sites []string
+	var paths []string
+	for p := range r.eng.Pkgs {
+		paths = append(paths, p)
+	}
+	sort.Strings(paths)
+	for _, pth := range paths {
+		p := r.eng.Pkgs[pth]
+		for _, file := range p.Syntax {
+			fname := r.eng.Fset.File(file.Pos()).Name()
+			if strings.HasSuffix(fname, "_test.go") {
+				continue
+			}
+			for _, im := range file.Imports {
+				switch strings.Trim(im.Path.Value, "\"") {
+				case "time", "math/rand", "math/rand/v2", "crypto/rand", "unsafe", "sync", "sync/atomic", "runtime":
+					bad = append(bad, fmt.Sprintf("%s imports %s", strings.TrimPrefix(fname, repoDir+"/"), im.Path.Value))
+				}
+			}
+			for _, d := range file.Decls {
+				fd, ok := d.(*ast.FuncDecl)
+				if !ok || fd.Body == nil {
+					continue
+				}
+				fkey := p.Name + "." + fd.Name.Name
+				ast.Inspect(fd.Body, func(n ast.Node) bool {
+					pos := func() string {
+						ps := r.eng.Fset.Position(n.Pos())
+						return fmt.Sprintf("%s:%d", strings.TrimPrefix(ps.Filename, repoDir+"/"), ps.Line)
+					}
+					switch x := n.(type) {
+					case *ast.GoStmt:
+						bad = append(bad, "go statement in "+fkey+" at "+pos())
+					case *ast.SelectStmt:
+						bad = append(bad, "select in "+fkey+" at "+pos())
+					case *ast.RangeStmt:
+						if tv, ok := p.TypesInfo.Types[x.X]; ok {
+							if _, isMap := tv.Type.Underlying().(*types.Map); isMap {
+								sites = append(sites, "range over map in "+fkey)
+								if !allowedRange[fkey] {
+									bad = append(bad, "range over a map in "+fkey+" at "+pos()+" (not a listed enumeration site)")
+								}
+							}
+						}
+					case *ast.BasicLit:
+						if strings.Contains(x.Value, "%p") {
+							bad = append(bad, "%p in a format string in "+fkey+" at "+pos())
+						}
+					}
+					return true
+				})
+			}
+		}
+	}
+	forEachCall(r, func(pkgName, fn string, call *ast.CallExpr, callee *types.Func, pos string) {
+		if callee.Pkg() == nil {
+			return
+		}
+		if strings.HasSuffix(callee.Pkg().Path(), "folang/pkg/dict") && (callee.Name() == "Keys" || callee.Name() == "Values" || callee.Name() == "KVs") {
+			sites = append(sites, "dict."+callee.Name()+" in "+pkgName+"."+fn)
+			if !allowedEnum[pkgName+"."+fn] {
+				bad = append(bad, "dict."+callee.Name()+" is called in "+pkgName+"."+fn+" at "+pos+" (not a listed consumer with an order-free contract)")
+			}
+		}
+		if callee.Pkg().Path() == "os" && (callee.Name() == "Getenv" || callee.Name() == "LookupEnv" || callee.Name() == "Environ" || callee.Name() == "Getpid" || callee.Name() == "Hostname") {
+			bad = append(bad, pkgName+"."+fn+" reads the environment ("+callee.Name()+") at "+pos)
+		}
+	})
+	addScanObl(r, "nondeterminism-sources", "no goroutine, select, time, randomness, environment read, %p or unsafe; every map range and every dict.Keys/Values/KVs call is a listed consumer site", len(bad) == 0, strings.Join(bad, "; "))
+	sort.Strings(sites)
+	r.notes = append(r.notes, "enumeration sites found by the scan: "+strings.Join(sites, "; "))
+}
